@@ -16,6 +16,8 @@ import (
 //	O4  a unit that never started is failed, not pending
 //	O5  no status query takes more than 5 s
 //	O6  one more kill/restart changes nothing
+//	O7  once the unit's producer is gone, the daemon's answer (state, detail, size) is the record
+//	    on disk and the size of the real stdout file
 //
 // Signatures: a loss is named after WHERE the process died as well as what was lost, so that the
 // known finding (the record is empty after a kill between truncate and write) does not cover a
@@ -92,6 +94,14 @@ func judge(sh *shared, o *observation) {
 	}
 	// RemoteStarted is only ever set by the submit path, so a record that shows it after the
 	// restart showed it before the crash
+	// O7: once nothing writes any more, what the daemon answers is what is on disk — the record
+	// and the real stdout file — (and by O6 stays so across a further restart)
+	if o.Disk != nil && o.Final.Listed && (o.Final.State != o.Disk.State || o.Final.Size != o.Disk.Size || o.Final.Detail != o.Disk.Detail ||
+		(complete(o.Disk.State) && o.Disk.State == 2 && int64(o.DiskOut) != o.Final.Size)) {
+		viol("report-differs-from-record", fmt.Sprintf("unit %s: the daemon answers state %d %q size %d while the record on disk says state %d %q size %d and stdout holds %d bytes (nothing is writing any more)",
+			o.Unit, o.Final.State, o.Final.Detail, o.Final.Size, o.Disk.State, o.Disk.Detail, o.Disk.Size, o.DiskOut))
+		return
+	}
 	startedBefore := (o.Before != nil && o.Before.Started) || (o.Replied && o.Kind == "remote-bound" && hasNote(o, "Job Started")) || v.Started
 	switch {
 	case o.Finished:
